@@ -489,6 +489,39 @@ pub fn persist_notice_covers_two_readies_after_truncation() -> Script {
     s
 }
 
+/// C09 (one membership change at a time): a follower that wrote a membership entry of the old leader but has not
+/// told raft yet wins the election; the inherited, unapplied change must still block a second membership proposal.
+pub fn elected_with_unreported_membership_entry() -> Script {
+    use raft::eraftpb::MessageType as T;
+    let mut s = Script::new(cluster(vec![1, 2, 3], 4));
+    s.act(Action::Campaign { n: 1 });
+    s.settle(&[1, 2, 3]);
+    // "add learner 4" (index 2) reaches node 2 only; node 2 writes it, the write completes, raft is not told
+    s.act(Action::ProposeConf { n: 1, id: 1, v1: false, transition: 0, changes: vec![(2, 4)] });
+    s.sync_round(1);
+    s.deliver_where(|k, m| k.f == 1 && k.t == 2 && m.get_msg_type() == T::MsgAppend);
+    s.drop_where(|k, _| k.f == 1);
+    s.act(Action::AppReady { n: 2, mode: Mode::Async, skip_fsync: false, force: false });
+    s.act(Action::Fsync { n: 2, count: u32::MAX, defer: true });
+    s.drop_where(|k, _| k.t == 1);
+    // node 2 is elected for term 2 by node 3, still without having reported its write
+    s.act(Action::Campaign { n: 2 });
+    s.act(Action::AppReady { n: 2, mode: Mode::Async, skip_fsync: false, force: false });
+    s.act(Action::Fsync { n: 2, count: u32::MAX, defer: true });
+    s.drop_where(|k, _| k.t == 1);
+    s.deliver_where(|k, m| k.f == 2 && k.t == 3 && m.get_msg_type() == T::MsgRequestVote);
+    s.sync_round(3);
+    s.deliver_where(|k, m| k.f == 3 && k.t == 2 && m.get_msg_type() == T::MsgRequestVoteResponse);
+    // a second membership change is proposed right away: the first is neither committed nor applied
+    s.act(Action::ProposeConf { n: 2, id: 2, v1: false, transition: 0, changes: vec![(1, 1)] });
+    s.act(Action::Notify { n: 2 });
+    for _ in 0..6 {
+        s.drop_where(|k, _| k.t == 1 || k.f == 1);
+        s.settle(&[2, 3]);
+    }
+    s
+}
+
 /// C08 open finding: a network duplicate of a forwarded MsgReadIndex is registered a second time at the
 /// (by then superseded) leader; a delayed heartbeat response that acknowledged the first registration
 /// completes the quorum of the second one and releases a later local read without any heartbeat round
@@ -553,6 +586,7 @@ pub fn for_property(id: &str) -> Vec<(&'static str, fn() -> Script)> {
             ("persist_notice_covers_two_readies_after_truncation", persist_notice_covers_two_readies_after_truncation),
         ],
         "C13" => vec![("elected_before_persistence_is_reported", elected_before_persistence_is_reported)],
+        "C09" => vec![("elected_with_unreported_membership_entry", elected_with_unreported_membership_entry)],
         "C04" => vec![
             ("persist_notice_after_truncating_ready", persist_notice_after_truncating_ready),
             ("stale_persist_notice_on_reelected_leader", stale_persist_notice_on_reelected_leader),
